@@ -38,7 +38,12 @@ def make_pairs(rng, count):
         k, area, lm = gen.gen_params(rng)
         n = rng.choice([2, 3, 3, 12])
         b0 = gen.gen_building(rng, n=n, ratio_only=lm, force=rng.choice([set(), {"pv"}, {"chp"}, {"nepb"}, {"hp"}, {"pv", "chp"}]))
-        b = metacheck.scale_building(b0, 64)     # values >= 1 kWh so that sub-steps stay >= 0.01 kWh
+        # most buildings get values >= 1 kWh (sub-steps of comfortable size); the others keep values down to 1/64 kWh, whose
+        # sub-steps fall below 1e-3 kWh: nothing in the evaluation may compare an energy with an absolute threshold (fix c3bd83b)
+        small_values = rng.random() < 0.3
+        b = b0 if small_values else metacheck.scale_building(b0, 64)
+        if small_values:
+            b.tags.add("small_values")
         if rng.random() < 0.3:
             # a two-service system whose auxiliary energy is shared by its output energy, nearly idle at some steps: the output
             # energy only enters through ratios, which subdivision leaves unchanged however small the sub-step values get
@@ -59,8 +64,8 @@ def make_pairs(rng, count):
         v1 = epflow.EpCase("b%dp" % i, {"text": text_of(pb)}, fspec, user, [(k, area, lm)], tags=b.tags)
         variants.append((v1, metacheck.relate_scaled(Fraction(1), per_step(lambda v, ext, sigma=sigma: [v[j] for j in sigma], 1, "permutation")),
                          "permutation of %d steps" % n))
-        m = rng.choice([2, 3, 4, 7])
-        if n * m <= 48:
+        m = rng.choice([2, 3, 4, 7] + ([24, 30] if n <= 3 else []))
+        if n * m <= 96:
             sb = metacheck.clone_building(b)
             for _, kw in sb.lines:
                 kw["values"] = [Fraction(x) / m for x in kw["values"] for _ in range(m)]
@@ -77,6 +82,6 @@ def run(tier, seed):
                          "same weighted parts and structure; step records are permuted / replaced by m scaled copies (domain "
                          "hypothesis on both layouts for the subdivision)",
                          "structured random buildings (2, 3, 12 steps; cogeneration, load matching, nEPB) with values >= 1 kWh; random "
-                         "permutations of the steps and subdivision by m in {2,3,4,7}; annual fields compared within tolerance, per-step "
+                         "permutations of the steps and subdivision by m in {2,3,4,7,24,30}, values down to 1/64 kWh before subdivision; annual fields compared within tolerance, per-step "
                          "vectors against the permuted / subdivided originals; non-trivial = the pair evaluates successfully",
                          n_pairs=300 if tier == "quick" else 6000)
